@@ -709,6 +709,48 @@ def _validate_params(method_name: str, kwargs: dict[str, object], param_types: d
             raise TypeError(f"{method_name}() parameter '{name}' is not optional but got None")
 
 
+def _reject_lossy_arguments(method_name: str, kwargs: dict[str, object], param_types: dict[str, object]) -> None:
+    """Refuse argument values that Arrow would accept by silently changing them.
+
+    pyarrow's Python-to-Arrow conversion is lenient in a few places where the
+    declared parameter type cannot represent the value given: a fractional
+    float is truncated into an integer column, a bare number becomes an epoch
+    offset in a temporal column, a string is iterated into a list of
+    characters, and a member of a different Enum is looked up by name.  The
+    method would then run with a value the caller never passed, so these are
+    rejected on the client before anything is written.
+    """
+    import datetime as _dt
+
+    for name, value in kwargs.items():
+        ptype = param_types.get(name)
+        if ptype is None or value is None:
+            continue
+        inner, _ = _is_optional_type(ptype)
+        base = _unwrap_annotated(inner)
+        origin = get_origin(base)
+        problem = ""
+        if base is int and isinstance(value, float) and not value.is_integer():
+            problem = "an int parameter cannot represent a fractional float"
+        elif (
+            isinstance(base, type)
+            and issubclass(base, (_dt.date, _dt.time, _dt.timedelta))
+            and isinstance(value, (int, float))
+        ):
+            problem = f"a {base.__name__} parameter cannot represent a bare number"
+        elif origin in (list, frozenset, set, tuple) and isinstance(value, (str, bytes)):
+            problem = f"a {origin.__name__} parameter cannot represent a {type(value).__name__}"
+        elif (
+            isinstance(base, type)
+            and issubclass(base, Enum)
+            and isinstance(value, Enum)
+            and not isinstance(value, base)
+        ):
+            problem = f"a {base.__name__} parameter cannot represent a member of {type(value).__name__}"
+        if problem:
+            raise TypeError(f"{method_name}() parameter '{name}': {problem} (got {value!r})")
+
+
 def _validate_call_signature(
     method_name: str,
     kwargs: dict[str, object],
@@ -988,6 +1030,7 @@ def _send_request(
             sorted(set(info.param_defaults) - set(kwargs)),
         )
     _validate_params(info.name, merged, info.param_types)
+    _reject_lossy_arguments(info.name, merged, info.param_types)
     _write_request(writer, info.name, info.params_schema, merged, shm=shm, protocol_version=protocol_version)
 
 
